@@ -7,7 +7,7 @@ From stdpp Require Import gmap.
 From RecordUpdate Require Import RecordUpdate.
 From Coq Require Import NArith Lia.
 From OC Require Import Model.Proto2 Model.Proto2Queue Proofs.P2Base Proofs.P2Phases Proofs.P2_Order Proofs.P2_Cursor
-     Proofs.P2_CursorInv Proofs.P2_CursorLink Proofs.P2_Queue.
+     Proofs.P2_CursorInv Proofs.P2_CursorLink Proofs.P2_CursorChainInv Proofs.P2_Queue.
 Open Scope N_scope.
 
 Section WaitA.
@@ -40,6 +40,8 @@ Section WaitA.
   Notation K_reach := (P2_Order.K_reach candidate candidate_rb rollback_of overlay commit_merge payload record_applied touched restore
                                         resync_payload doc_ok dev_apply stamp v_empty d_empty ch_empty).
   Notation T_reach := (T_inv_reach candidate candidate_rb rollback_of overlay commit_merge payload record_applied touched restore
+                                   resync_payload doc_ok dev_apply stamp v_empty d_empty ch_empty).
+  Notation C_reach := (C_inv_reach candidate candidate_rb rollback_of overlay commit_merge payload record_applied touched restore
                                    resync_payload doc_ok dev_apply stamp v_empty d_empty ch_empty).
   Notation q_reach := (qreach_reach candidate candidate_rb rollback_of overlay commit_merge payload record_applied touched restore
                                     resync_payload doc_ok dev_apply stamp v_empty d_empty ch_empty).
@@ -203,7 +205,7 @@ Section WaitA.
     intros Hr. destruct c as [i|kk|t0|t0|c0]; cbn [Proto2.reconcile]; intros H.
     - destruct (rec_tx_puttx candidate candidate_rb rollback_of overlay commit_merge payload record_applied touched restore
                   resync_payload doc_ok dev_apply stamp v_empty d_empty ch_empty w i j T' Hr H) as [-> _]. reflexivity.
-    - destruct (rec_prop_no_puttx _ _ _ _ _ _ _ _ _ _ _ _ _ _ _ _ _ H).
+    - eapply rec_prop_no_puttx in H. destruct H.
     - apply rec_cfg_kinds in H. destruct H.
     - apply rec_master_only_putcfg in H. destruct H.
     - apply rec_conn_only_rel in H. destruct H.
@@ -216,5 +218,478 @@ Section WaitA.
     destruct n as [|n]; cbn in *.
     - injection Hn as ->. destruct Hin as [->|Hin]; [destruct (Hne eq_refl)|exact Hin].
     - destruct Hin as [->|Hin]; [left; reflexivity|right; eapply IH; eassumption].
+  Qed.
+
+  Lemma ctrl_tx_dec (c : ctrl) (i : N) : {c = CtlTx i} + {c <> CtlTx i}.
+  Proof.
+    destruct c as [j|k|t|t|cc]; try (right; discriminate).
+    destruct (N.eq_dec j i) as [->|Hne]; [left; reflexivity|right; intros [= H]; exact (Hne H)].
+  Qed.
+
+  Lemma forallb_false_ex {A} (f : A -> bool) (l : list A) : forallb f l = false -> exists x, In x l /\ f x = false.
+  Proof.
+    induction l as [|a l IH]; cbn; [discriminate|]. destruct (f a) eqn:E; cbn.
+    - intros H. destruct (IH H) as (x & Hx & Hf). exists x. split; [right; exact Hx|exact Hf].
+    - intros _. exists a. split; [left; reflexivity|exact E].
+  Qed.
+
+  Lemma txs_fold_keep (es : list eff) : forall (w : world) j, is_Some (txs w !! j) -> is_Some (txs (fold_left apply_eff es w) !! j).
+  Proof.
+    induction es as [|e r IH]; intros w j H; [exact H|]. cbn [fold_left]. apply IH. rewrite txs_apply_eff.
+    destruct e; try exact H. destruct (decide (i = j)) as [->|Hne]; [rewrite lookup_insert; eexists; reflexivity|].
+    rewrite lookup_insert_ne by exact Hne. exact H.
+  Qed.
+
+  Lemma qreach_step (s : qworld) l : qreach s -> qreach (qstep s l).
+  Proof. intros [ls ->]. exists (ls ++ [l]). unfold Proto2Queue.qrun. rewrite fold_left_app. reflexivity. Qed.
+
+  (* the shape of the queued world after the delivery of the n-th pending id *)
+  Lemma deliver_shape (s : qworld) n o c :
+    nth_error (queue s) n = Some c ->
+    qw (qstep s (QDeliver n o)) = fold_left apply_eff (fst (reconcile o (qw s) c)) (qw s) /\
+    (forall x, In x (queue s) -> x <> c -> In x (queue (qstep s (QDeliver n o)))) /\
+    (forall x, In x (requeue c (snd (reconcile o (qw s) c))) -> In x (queue (qstep s (QDeliver n o)))).
+  Proof.
+    intros Hn. cbn [Proto2Queue.qstep]. rewrite Hn.
+    destruct (reconcile o (qw s) c) as [es r] eqn:Er.
+    pose proof (apply_effs_world dev_apply d_empty es (qw s)) as Hw.
+    destruct (Proto2Queue.apply_effs dev_apply d_empty (qw s) es) as [w' q]. cbn in *.
+    split; [exact Hw|]. split.
+    - intros x Hx Hne. apply in_or_app. left. eapply remove_nth_keeps; eassumption.
+    - intros x Hx. apply in_or_app. right. apply in_or_app. right. exact Hx.
+  Qed.
+
+  (* the effects that touch a proposal of transaction i *)
+  Definition touches_tx (i : N) (e : eff) : bool :=
+    match e with EPutProp k _ | ECreateProp k _ => snd k =? i | _ => false end.
+
+  Lemma touches_weaker (i t : N) (es : list eff) :
+    forallb (fun e => negb (touches_tx i e)) es = true -> forallb (fun e => negb (touches_prop (t, i) e)) es = true.
+  Proof.
+    intros H. rewrite forallb_forall in *. intros e He. specialize (H e He).
+    destruct e; cbn in *; try reflexivity; destruct (snd k =? i); try discriminate; rewrite andb_false_r; reflexivity.
+  Qed.
+
+  (** * The invariant is preserved by every delivery *)
+  Lemma wait_a_deliver (s : qworld) n o c :
+    qreach s -> wait_a s -> nth_error (queue s) n = Some c -> wait_a (qstep s (QDeliver n o)).
+  Proof.
+    intros Hq IH Hn. pose proof (q_reach _ Hq) as Hr.
+    destruct (deliver_shape s n o c Hn) as (Hw & Hkeep & Hrq).
+    pose proof (delivery_wakes_owners candidate candidate_rb rollback_of overlay commit_merge payload record_applied touched restore
+                  resync_payload doc_ok dev_apply stamp v_empty d_empty ch_empty s n o c) as Hown.
+    assert (Hr' : reach (qw (qstep s (QDeliver n o)))) by (apply q_reach; apply qreach_step; exact Hq).
+    pose proof (T_reach _ Hr) as HTI.
+    intros i T' HT' Hi Hen.
+    assert (HT'' := HT'). rewrite Hw in HT''. apply txs_fold in HT''. destruct HT'' as [HT|Hin].
+    2:{ left. eapply Hown; [exact Hn|exact Hin|exact I|left; reflexivity]. }
+    pose proof (early_others_none _ _ _ Hr HT (or_intror Hi)) as Ho.
+    destruct (ctrl_tx_dec c i) as [->|Hc].
+    { (* the transaction itself was delivered *)
+      cbn [Proto2.reconcile] in Hw, Hown.
+      assert (Hen0 : tx_enabled (qw s) i).
+      { intros Hnil. apply Hen. rewrite Hw, Hnil. cbn. exact Hnil. }
+      destruct (init_enabled_writes _ _ _ HT Hi Ho Hen0) as (T'' & Hin).
+      left. eapply Hown; [exact Hn|exact Hin|exact I|left; reflexivity]. }
+    destruct (forallb (fun e => negb (touches_tx i e)) (fst (reconcile o (qw s) c))) eqn:Etouch.
+    2:{ (* a proposal of transaction i was written: the transaction is woken *)
+      apply forallb_false_ex in Etouch. destruct Etouch as (e & He & Hf). apply negb_false_iff in Hf.
+      destruct e as [| k P'| k P'| | | | | | |]; cbn in Hf; try discriminate; apply N.eqb_eq in Hf.
+      - exfalso. apply reconcile_createprop in He. destruct He as (T0 & -> & _). apply Hc. rewrite Hf. reflexivity.
+      - left. eapply Hown; [exact Hn|exact He|exact I|]. left. rewrite Hf. reflexivity. }
+    assert (Hprops : forall t, props (qw (qstep s (QDeliver n o))) !! (t, i) = props (qw s) !! (t, i)).
+    { intros t. rewrite Hw. apply props_fold_same. apply touches_weaker. exact Etouch. }
+    destruct (proj1 (init_enabled _ _ _ HT' Hi Ho) Hen) as [Hb' Hrd'].
+    rewrite (ready_ext _ _ _ _ Hprops) in Hrd'.
+    assert (Hi1 : is_Some (txs (qw s) !! (i - 1)) -> i - 1 + 1 = i).
+    { intros Hs. destruct (N.eq_dec i 0) as [->|]; [|lia]. cbn in Hs. rewrite (ti_zero _ HTI) in Hs. destruct Hs; discriminate. }
+    destruct (blocks (qw s) i) eqn:Eb.
+    - (* the predecessor was still initialising: it has just left that state *)
+      unfold blocks in Eb, Hb'. destruct (txs (qw s) !! (i - 1)) as [P|] eqn:HP; [|discriminate].
+      destruct (txs_fold_keep (fst (reconcile o (qw s) c)) (qw s) (i - 1)) as [P' HP']; [rewrite HP; eexists; reflexivity|].
+      rewrite <- Hw in HP'. rewrite HP' in Hb'.
+      assert (HP'' := HP'). rewrite Hw in HP''. apply txs_fold in HP''. destruct HP'' as [HPs|Hin].
+      { rewrite HP in HPs. injection HPs as <-. rewrite Eb in Hb'. discriminate. }
+      pose proof (puttx_writer _ _ _ _ _ Hr Hin) as ->. cbn [Proto2.reconcile] in Hin, Hrq.
+      assert (HiP : t_init P = None \/ t_init P = Some Doing).
+      { destruct (t_init P) as [[]|]; cbn in Eb; try discriminate; auto. }
+      destruct (init_writes _ _ _ _ _ HP HiP (early_others_none _ _ _ Hr HP HiP) Hin) as [Hd|[[_ Hrr]|Hg]].
+      + rewrite Hd in Hb'. cbn in Hb'. discriminate.
+      + left. apply Hrq. rewrite Hrr. cbn. left. rewrite Hi1 by (try rewrite HP; eexists; reflexivity). reflexivity.
+      + right. exists P'. split; [exact HP'|exact Hg].
+    - (* the transaction was enabled before *)
+      assert (Hen0 : tx_enabled (qw s) i) by (apply (init_enabled _ _ _ HT Hi Ho); split; assumption).
+      destruct (IH i T' HT Hi Hen0) as [Hpend|(P & HP & Hg)].
+      + left. apply Hkeep; [exact Hpend|]. intros E. apply Hc. symmetry. exact E.
+      + destruct (txs_fold_keep (fst (reconcile o (qw s) c)) (qw s) (i - 1)) as [P' HP']; [rewrite HP; eexists; reflexivity|].
+        assert (HP'' := HP'). apply txs_fold in HP''. destruct HP'' as [HPs|Hin].
+        * rewrite HP in HPs. injection HPs as <-. right. exists P. split; [rewrite Hw; exact HP'|exact Hg].
+        * pose proof (puttx_writer _ _ _ _ _ Hr Hin) as ->. cbn [Proto2.reconcile] in Hin, Hrq.
+          destruct (gate_requeues _ _ _ HP Hg) as [Hnil|Hrr]; [rewrite Hnil in Hin; destruct Hin|].
+          left. apply Hrq. rewrite Hrr. cbn. left. rewrite Hi1 by (try rewrite HP; eexists; reflexivity). reflexivity.
+  Qed.
+
+  (** * ... and by every environment step *)
+  Lemma env_frame (w : world) (l : @label Ch) :
+    (match l with LRec _ _ _ => False | _ => True end) ->
+    props (step w l) = props w /\
+    (forall j, j <> next_index w -> txs (step w l) !! j = txs w !! j) /\
+    (forall T', txs (step w l) !! (next_index w) = Some T' -> t_init T' = None \/ txs w !! (next_index w) = Some T').
+  Proof.
+    destruct l as [chs sy se|ri|c n o|c t0|c|c t0|t0 p|t0|t0]; cbn [Proto2.step]; intros Hl; try destruct Hl.
+    - cbn. split; [reflexivity|]. split; [intros j Hj; rewrite lookup_insert_ne by (intros E; apply Hj; symmetry; exact E); reflexivity|].
+      intros T'. rewrite lookup_insert. intros [= <-]. left. reflexivity.
+    - cbn. split; [reflexivity|]. split; [intros j Hj; rewrite lookup_insert_ne by (intros E; apply Hj; symmetry; exact E); reflexivity|].
+      intros T'. rewrite lookup_insert. intros [= <-]. left. reflexivity.
+    - destruct (conns w !! c); cbn; split; try reflexivity; split; try reflexivity; intros T' H; right; exact H.
+    - cbn. split; [reflexivity|]. split; [reflexivity|]. intros T' H. right. exact H.
+    - destruct (rels w !! c); cbn; split; try reflexivity; split; try reflexivity; intros T' H; right; exact H.
+    - cbn. split; [reflexivity|]. split; [reflexivity|]. intros T' H. right. exact H.
+    - cbn. split; [reflexivity|]. split; [reflexivity|]. intros T' H. right. exact H.
+    - cbn. split; [reflexivity|]. split; [reflexivity|]. intros T' H. right. exact H.
+  Qed.
+
+  Lemma wait_a_env (s : qworld) (l : @label Ch) : qreach s -> wait_a s -> wait_a (qstep s (QEnv l)).
+  Proof.
+    intros Hq IH. pose proof (q_reach _ Hq) as Hr. pose proof (K_reach _ Hr) as HK.
+    pose proof (j_fresh _ (P2_Order.k_J _ HK)) as Hfresh.
+    assert (Hl : (match l with LRec _ _ _ => False | _ => True end) \/ exists c n o, l = LRec c n o).
+    { destruct l; try (left; exact I). right. eauto. }
+    destruct Hl as [Hl|(c & n & o & ->)]; [|exact IH].
+    assert (Hs : qstep s (QEnv l) = mkQW (step (qw s) l) (queue s ++ env_wakes (qw s) l)) by (destruct l; try reflexivity; destruct Hl).
+    rewrite Hs. clear Hs. destruct (env_frame (qw s) l Hl) as (Hp & Htx & Hnew). unfold wait_a. cbn [qw queue].
+    intros i T' HT' Hi Hen.
+    assert (Hne : i <> next_index (qw s)).
+    { intros ->. destruct (Hnew _ HT') as [Hn|Hold]; [congruence|]. rewrite Hfresh in Hold by lia. discriminate. }
+    assert (HT : txs (qw s) !! i = Some T') by (rewrite <- Htx by exact Hne; exact HT').
+    assert (Hprev : txs (step (qw s) l) !! (i - 1) = txs (qw s) !! (i - 1)).
+    { apply Htx. intros E. rewrite Hfresh in HT by lia. discriminate. }
+    pose proof (early_others_none _ _ _ Hr HT (or_intror Hi)) as Ho.
+    destruct (proj1 (init_enabled (step (qw s) l) i T' HT' Hi Ho) Hen) as [Hb Hrd].
+    assert (Hbeq : blocks (step (qw s) l) i = blocks (qw s) i) by (unfold blocks; rewrite Hprev; reflexivity).
+    rewrite Hbeq in Hb.
+    rewrite (ready_ext (qw s) (step (qw s) l) i T') in Hrd by (intros t; rewrite Hp; reflexivity).
+    assert (Hen0 : tx_enabled (qw s) i) by (apply (init_enabled _ _ _ HT Hi Ho); split; assumption).
+    destruct (IH i T' HT Hi Hen0) as [Hpend|(P & HP & Hg)].
+    - left. apply in_or_app. left. exact Hpend.
+    - right. exists P. split; [rewrite Hprev; exact HP|exact Hg].
+  Qed.
+
+  (** * Wait (a) has a token in every reachable queued world *)
+  Theorem wait_a_reach (s : qworld) : qreach s -> wait_a s.
+  Proof.
+    intros [ls ->]. induction ls as [|l ls IH] using rev_ind.
+    - intros i T H. cbn in H. rewrite lookup_empty in H. discriminate.
+    - unfold Proto2Queue.qrun in *. rewrite fold_left_app. cbn [fold_left].
+      assert (Hq : qreach (fold_left qstep ls qinit)) by (exists ls; reflexivity).
+      destruct l as [n o|l].
+      + destruct (nth_error (queue (fold_left qstep ls qinit)) n) as [c|] eqn:Hn.
+        * apply wait_a_deliver with (c := c); assumption.
+        * cbn [Proto2Queue.qstep]. rewrite Hn. exact IH.
+      + apply wait_a_env; assumption.
+  Qed.
+
+  (** * Wait (b): a transaction at a gate *)
+  (* INITIALIZED / VALIDATED / COMMITTED with the next phase not started: the three gates of the transaction reconciler *)
+  Definition gate_state (T : txn) : Prop :=
+    t_apply T = None /\ t_abort T = None /\
+    ((exists c, t_commit T = Some c /\ c = Done) \/
+     (t_commit T = None /\ t_validate T = Some Done) \/
+     (t_commit T = None /\ t_validate T = None /\ t_init T = Some Done)).
+  Definition gate_need (T : txn) : N :=
+    match t_commit T, t_validate T with Some _, _ => 3 | None, Some _ => 2 | None, None => 1 end.
+  Definition gate_open (w : world) (j : N) (T : txn) : Prop :=
+    all_props w j (default [] (t_props T)) (fun _ => true) <> None /\
+    blocked_by_prev w j (default [] (t_props T)) (gate_need T) = false.
+
+  Definition wait_b (s : qworld) : Prop :=
+    forall j T, txs (qw s) !! j = Some T -> gate_state T -> tx_enabled (qw s) j -> In (CtlTx j) (queue s).
+
+  Lemma gate_enabled (w : world) j (T : txn) :
+    txs w !! j = Some T -> gate_state T ->
+    (tx_enabled w j <-> gate_open w j T) /\ (tx_enabled w j -> exists T', In (EPutTx j T') (fst (rec_tx w j))).
+  Proof.
+    intros HT (Ha & Hab & Hg). unfold tx_enabled, gate_open, gate_need. unfold Proto2.rec_tx. rewrite HT, Ha, Hab.
+    destruct Hg as [(c & Hc & ->)|[(Hc & Hv)|(Hc & Hv & Hi)]]; rewrite Hc; try rewrite Hv; try rewrite Hi; unfold gate;
+      (destruct (all_props w j _ _) as [b|]; [|split; [split; [intros H; destruct (H eq_refl)|intros [H _]; destruct (H eq_refl)]|intros H; destruct (H eq_refl)]]);
+      (destruct (blocked_by_prev w j _ _); cbn;
+       [split; [split; [intros H; destruct (H eq_refl)|intros [_ H]; discriminate]|intros H; destruct (H eq_refl)]
+       |split; [split; [intros _; split; [discriminate|reflexivity]|intros _; discriminate]|intros _; eexists; left; reflexivity]]).
+  Qed.
+
+  Lemma blocked_ext (w w' : world) j tg need :
+    (forall t, props w' !! (t, j) = props w !! (t, j)) ->
+    (forall t p, props w !! (t, j) = Some p -> txs w' !! (p_prev p) = txs w !! (p_prev p)) ->
+    blocked_by_prev w' j tg need = blocked_by_prev w j tg need.
+  Proof.
+    intros Hp Ht. unfold blocked_by_prev. induction tg as [|t tg IH]; [reflexivity|]. cbn. rewrite IH, Hp.
+    destruct (props w !! (t, j)) as [p|] eqn:E; [|reflexivity]. rewrite (Ht _ _ E). reflexivity.
+  Qed.
+
+  (** ** What a write of the transaction reconciler to its record keeps *)
+  Definition is_putprop (e : eff) : bool := match e with EPutProp _ _ => true | _ => false end.
+  Definition keeps (T T' : txn) : Prop :=
+    t_serializable T' = t_serializable T /\ (t_props T = None \/ t_props T' = t_props T) /\
+    (t_state T' = t_state T \/ is_Some (t_validate T) \/ t_init T' = Some Failed).
+  Definition wr_ok (T : txn) (es : list eff) : Prop :=
+    forall m' T', In (EPutTx m' T') es -> forallb (fun e => negb (is_putprop e)) es = true /\ keeps T T'.
+
+  Lemma wr_nil T : wr_ok T []. Proof. intros m' T' []. Qed.
+  Lemma wr_one T i T' : keeps T T' -> wr_ok T [EPutTx i T'].
+  Proof. intros Hk m' T0 [[= <- <-]|[]]. split; [reflexivity|exact Hk]. Qed.
+  Lemma wr_putprop T k P : wr_ok T [EPutProp k P].
+  Proof. intros m' T0 [H|[]]. discriminate. Qed.
+
+  Lemma phase_scan_wr (w : world) i (T : txn) tg get start stop on_failed on_all_done :
+    (forall p, keeps T (on_failed p)) -> keeps T on_all_done ->
+    wr_ok T (fst (phase_scan w i T tg get start stop on_failed on_all_done)).
+  Proof.
+    intros Hf Hd. unfold phase_scan. destruct (scan_props w i tg _) as [[u|[t p]]|].
+    - apply wr_nil.
+    - destruct (is_none (get p)); [apply wr_putprop|apply wr_one; apply Hf].
+    - destruct (default false _); [apply wr_one; exact Hd|apply wr_nil].
+  Qed.
+
+  Lemma gate_wr (w : world) i (T : txn) tg need next r : keeps T next -> wr_ok T (fst (gate w i T tg need next r)).
+  Proof.
+    intros Hk. unfold gate. destruct (all_props w i tg _); [|apply wr_nil].
+    destruct (blocked_by_prev w i tg need); [apply wr_nil|apply wr_one; exact Hk].
+  Qed.
+
+  Lemma create_wr (w0 : world) i l (T T' : txn) : keeps T T' -> wr_ok T (create_props w0 i l ++ [EPutTx i T']).
+  Proof.
+    intros Hk m' T0 Hin. split.
+    - rewrite forallb_app. apply andb_true_intro. split; [|reflexivity].
+      rewrite forallb_forall. intros e He. unfold create_props in He. apply in_flat_map in He. destruct He as (x & _ & Hx).
+      destruct (props w0 !! (x.1, i)); [destruct Hx|destruct Hx as [<-|[]]; reflexivity].
+    - apply in_app_or in Hin. destruct Hin as [Hin|[[= <- <-]|[]]]; [|exact Hk].
+      unfold create_props in Hin. apply in_flat_map in Hin. destruct Hin as (x & _ & Hx).
+      destruct (props w0 !! (x.1, i)); [destruct Hx|destruct Hx as [Hx|[]]; discriminate].
+  Qed.
+
+  Ltac keeps_tac :=
+    unfold keeps; cbn [t_serializable t_props t_state t_init t_validate t_commit t_apply t_abort t_details t_failure set];
+    repeat split; auto.
+
+  Lemma rec_tx_wr (w : world) i (T : txn) :
+    txs w !! i = Some T -> tx_wf T -> wr_ok T (fst (rec_tx w i)).
+  Proof.
+    intros HT Hwf. unfold Proto2.rec_tx. rewrite HT.
+    assert (Hval : is_Some (t_apply T) \/ is_Some (t_commit T) \/ is_Some (t_validate T) -> is_Some (t_validate T)).
+    { unfold tx_wf, wfb, imp, P2Phases.some, P2Phases.is_ph in Hwf.
+      destruct (t_validate T) as [v|]; [intros _; eexists; reflexivity|].
+      destruct (t_commit T) as [[]|], (t_apply T) as [[]|]; cbn in Hwf; rewrite ?andb_false_r in Hwf; try discriminate;
+        intros [[? H]|[[? H]|[? H]]]; discriminate. }
+    destruct (t_apply T) as [a|] eqn:Ea.
+    { destruct a; try apply wr_nil.
+      destruct (scan_props w i _ (fun p => is_none (p_apply p))) as [[u|[t p]]|]; [apply wr_nil|apply wr_putprop|].
+      apply phase_scan_wr; [intros p|]; keeps_tac; right; left; apply Hval; left; eexists; reflexivity. }
+    destruct (t_abort T) as [ab|] eqn:Eb.
+    { destruct ab; try apply wr_nil. apply phase_scan_wr; [intros p|]; keeps_tac. }
+    destruct (t_commit T) as [c|] eqn:Ec.
+    { destruct c; try apply wr_nil.
+      - apply phase_scan_wr; [intros p|]; keeps_tac. right. left. apply Hval. right. left. eexists; reflexivity.
+      - apply gate_wr. keeps_tac. }
+    destruct (t_validate T) as [v|] eqn:Ev.
+    { destruct v; try apply wr_nil.
+      - apply phase_scan_wr; [intros p|]; keeps_tac; right; left; eexists; reflexivity.
+      - apply gate_wr. keeps_tac. }
+    destruct (t_init T) as [ini|] eqn:Ei.
+    2:{ apply wr_one. keeps_tac. }
+    destruct ini; try apply wr_nil.
+    - destruct (match txs w !! (i - 1) with Some P => _ | None => false end); [apply wr_nil|].
+      destruct (t_props T) as [tg'|] eqn:Ep.
+      + destruct (all_props w i tg' _) as [[|]|]; try apply wr_nil. apply wr_one. keeps_tac.
+      + destruct (t_details T) as [chs|ri] eqn:Ed.
+        * cbn [fst]. apply create_wr. keeps_tac.
+        * destruct (txs w !! ri) as [R|] eqn:HR.
+          -- destruct (t_details R) as [chs|rj]; cbn [fst]; [apply create_wr; keeps_tac|].
+             unfold fail_init. apply wr_one. keeps_tac.
+          -- unfold fail_init. cbn [fst]. apply wr_one. keeps_tac.
+    - apply gate_wr. keeps_tac.
+  Qed.
+
+  (** ** The transaction event wakes the successors *)
+  Lemma apply_effs_tx_succ (es : list eff) : forall (w : world) m (Tm' : txn) t (Q : prop),
+    In (EPutTx m Tm') es -> In t (default [] (t_props Tm')) -> props w !! (t, m) = Some Q -> p_next Q <> 0 ->
+    forallb (fun e => negb (is_putprop e)) es = true ->
+    In (CtlTx (p_next Q)) (snd (apply_effs w es)).
+  Proof.
+    induction es as [|e0 r IH]; intros w m Tm' t Q Hin Ht HQ Hn Hnp; [destruct Hin|].
+    cbn in Hnp. apply andb_prop in Hnp. destruct Hnp as [Hnp0 Hnp].
+    cbn. destruct (apply_effs (apply_eff w e0) r) as [w' q] eqn:E. cbn. apply in_or_app.
+    destruct Hin as [->|Hin].
+    - left. cbn [Proto2Queue.wakes]. unfold tx_wakes. right. apply in_flat_map. exists t. split; [exact Ht|].
+      rewrite HQ. destruct (p_next Q =? 0) eqn:Ez; [apply N.eqb_eq in Ez; destruct (Hn Ez)|left; reflexivity].
+    - right. assert (HQ' : props (apply_eff w e0) !! (t, m) = Some Q).
+      { rewrite props_apply_eff. destruct e0; try exact HQ; try discriminate.
+        destruct (props w !! k) eqn:Ek; [exact HQ|].
+        rewrite lookup_insert_ne; [exact HQ|]. intros ->. rewrite HQ in Ek. discriminate. }
+      specialize (IH (apply_eff w e0) m Tm' t Q Hin Ht HQ' Hn Hnp). rewrite E in IH. exact IH.
+  Qed.
+
+  Lemma deliver_wakes (s : qworld) n o c x :
+    nth_error (queue s) n = Some c -> In x (snd (apply_effs (qw s) (fst (reconcile o (qw s) c)))) -> In x (queue (qstep s (QDeliver n o))).
+  Proof.
+    intros Hn. cbn [Proto2Queue.qstep]. rewrite Hn. destruct (reconcile o (qw s) c) as [es r] eqn:Er. cbn [fst].
+    destruct (apply_effs (qw s) es) as [w' q]. cbn. intros Hx. apply in_or_app. right. apply in_or_app. left. exact Hx.
+  Qed.
+
+  Lemma existsb_false_in {A} (f : A -> bool) l x : existsb f l = false -> In x l -> f x = false.
+  Proof. intros H Hin. destruct (f x) eqn:E; [|reflexivity]. rewrite <- H. symmetry. apply existsb_exists. eauto. Qed.
+
+  Lemma props_fold_keep (es : list eff) : forall (w : world) k, is_Some (props w !! k) -> is_Some (props (fold_left apply_eff es w) !! k).
+  Proof.
+    induction es as [|e r IH]; intros w k H; [exact H|]. cbn [fold_left]. apply IH. rewrite props_apply_eff.
+    destruct e; try exact H.
+    - destruct (props w !! k0) eqn:E; [exact H|]. destruct (decide (k0 = k)) as [->|Hne]; [rewrite lookup_insert; eexists; reflexivity|].
+      rewrite lookup_insert_ne by exact Hne. exact H.
+    - destruct (decide (k0 = k)) as [->|Hne]; [rewrite lookup_insert; eexists; reflexivity|]. rewrite lookup_insert_ne by exact Hne. exact H.
+  Qed.
+
+  Lemma wf_validate_props (T : txn) : tx_wf T -> is_Some (t_validate T) -> is_Some (t_props T).
+  Proof.
+    unfold tx_wf, wfb, imp, P2Phases.some, P2Phases.is_ph. intros Hwf [v Hv]. rewrite Hv in Hwf.
+    destruct (t_props T); [eexists; reflexivity|]. cbn in Hwf.
+    destruct (t_init T) as [[]|]; cbn in Hwf; rewrite ?andb_false_r in Hwf; discriminate.
+  Qed.
+
+  Lemma wait_b_deliver (s : qworld) n o c :
+    qreach s -> wait_b s -> nth_error (queue s) n = Some c -> wait_b (qstep s (QDeliver n o)).
+  Proof.
+    intros Hq IH Hn. pose proof (q_reach _ Hq) as Hr.
+    destruct (deliver_shape s n o c Hn) as (Hw & Hkeep & Hrq).
+    pose proof (delivery_wakes_owners candidate candidate_rb rollback_of overlay commit_merge payload record_applied touched restore
+                  resync_payload doc_ok dev_apply stamp v_empty d_empty ch_empty s n o c) as Hown.
+    assert (Hr' : reach (qw (qstep s (QDeliver n o)))) by (apply q_reach; apply qreach_step; exact Hq).
+    pose proof (K_reach _ Hr) as HK. pose proof (C_reach _ Hr) as HC. pose proof (T_reach _ Hr') as HTI'.
+    intros j T' HT' Hg Hen.
+    assert (HT'' := HT'). rewrite Hw in HT''. apply txs_fold in HT''. destruct HT'' as [HT|Hin].
+    2:{ eapply Hown; [exact Hn|exact Hin|exact I|left; reflexivity]. }
+    destruct (ctrl_tx_dec c j) as [->|Hc].
+    { cbn [Proto2.reconcile] in Hw, Hown.
+      assert (Hen0 : tx_enabled (qw s) j).
+      { intros Hnil. apply Hen. rewrite Hw, Hnil. cbn. exact Hnil. }
+      destruct (proj2 (gate_enabled _ _ _ HT Hg) Hen0) as (T'' & Hin).
+      eapply Hown; [exact Hn|exact Hin|exact I|left; reflexivity]. }
+    destruct (forallb (fun e => negb (touches_tx j e)) (fst (reconcile o (qw s) c))) eqn:Etouch.
+    2:{ apply forallb_false_ex in Etouch. destruct Etouch as (e & He & Hf). apply negb_false_iff in Hf.
+      destruct e as [| k P'| k P'| | | | | | |]; cbn in Hf; try discriminate; apply N.eqb_eq in Hf.
+      - exfalso. apply reconcile_createprop in He. destruct He as (T0 & -> & _). apply Hc. rewrite Hf. reflexivity.
+      - eapply Hown; [exact Hn|exact He|exact I|]. left. rewrite Hf. reflexivity. }
+    assert (Hprops : forall t, props (qw (qstep s (QDeliver n o))) !! (t, j) = props (qw s) !! (t, j)).
+    { intros t. rewrite Hw. apply props_fold_same. apply touches_weaker. exact Etouch. }
+    destruct (proj1 (proj1 (gate_enabled _ _ _ HT' Hg)) Hen) as [Hall' Hb'].
+    rewrite (all_props_ext _ _ _ _ _ Hprops) in Hall'.
+    destruct (blocked_by_prev (qw s) j (default [] (t_props T')) (gate_need T')) eqn:Eb.
+    2:{ assert (Hen0 : tx_enabled (qw s) j) by (apply (proj1 (gate_enabled _ _ _ HT Hg)); split; assumption).
+        apply Hkeep; [exact (IH j T' HT Hg Hen0)|]. intros E. apply Hc. symmetry. exact E. }
+    (* the gate has just opened: a SERIALIZABLE predecessor moved on, and its transaction event names this transaction *)
+    unfold blocked_by_prev in Eb, Hb'. apply existsb_exists in Eb. destruct Eb as (t & Ht & Hft).
+    pose proof (existsb_false_in _ _ _ Hb' Ht) as Hft'. cbn beta in Hft'. rewrite Hprops in Hft'.
+    destruct (props (qw s) !! (t, j)) as [p|] eqn:Hp; [|discriminate].
+    apply andb_prop in Hft. destruct Hft as [Hpos Hft]. rewrite Hpos in Hft'. cbn [andb] in Hft'.
+    destruct (txs (qw s) !! (p_prev p)) as [pt|] eqn:Hpt; [|discriminate].
+    destruct (txs_fold_keep (fst (reconcile o (qw s) c)) (qw s) (p_prev p)) as [pt' Hpt']; [rewrite Hpt; eexists; reflexivity|].
+    rewrite <- Hw in Hpt'. rewrite Hpt' in Hft'.
+    assert (Hpt'' := Hpt'). rewrite Hw in Hpt''. apply txs_fold in Hpt''. destruct Hpt'' as [Hs|Hin].
+    { rewrite Hpt in Hs. injection Hs as <-. rewrite Hft in Hft'. discriminate. }
+    pose proof (puttx_writer _ _ _ _ _ Hr Hin) as ->. cbn [Proto2.reconcile] in Hin.
+    destruct (rec_tx_wr _ _ _ Hpt (j_tx _ (P2_Order.k_J _ HK) _ _ Hpt) _ _ Hin) as (Hnp & Hser & Hpr & Hst).
+    apply N.ltb_lt in Hpos.
+    destruct (ci_prev _ HC _ _ _ Hp) as (Q & HQ & HnQ); [lia|].
+    apply andb_prop in Hft. destruct Hft as [Hs1 Hrk]. rewrite Hser, Hs1 in Hft'. cbn [andb] in Hft'.
+    assert (Htin : In t (default [] (t_props pt'))).
+    { destruct Hst as [Hst|[Hv|Hfl]].
+      - rewrite Hst, Hrk in Hft'. discriminate.
+      - destruct (wf_validate_props _ (j_tx _ (P2_Order.k_J _ HK) _ _ Hpt) Hv) as [tg0 Htg0].
+        destruct Hpr as [Hpr|Hpr]; [congruence|]. rewrite Hpr, Htg0. cbn.
+        eapply (listed _ _ _ _ _ _ HK HQ Hpt Htg0).
+      - exfalso. assert (HQ' : is_Some (props (qw (qstep s (QDeliver n o))) !! (t, p_prev p))).
+        { rewrite Hw. apply props_fold_keep. rewrite HQ. eexists; reflexivity. }
+        destruct HQ' as [Q' HQ'']. destruct (ti_created _ HTI' _ _ _ HQ'') as (T0 & HT0 & _ & Hnf & _).
+        rewrite Hpt' in HT0. injection HT0 as <-. exact (Hnf Hfl). }
+    apply (deliver_wakes s n o (CtlTx (p_prev p)) (CtlTx j) Hn). cbn [Proto2.reconcile]. rewrite <- HnQ.
+    eapply apply_effs_tx_succ; [exact Hin|exact Htin|exact HQ| |exact Hnp].
+    rewrite HnQ. intros ->. rewrite (ti_zero _ (T_reach _ Hr)) in HT. discriminate.
+  Qed.
+
+  Lemma wait_b_env (s : qworld) (l : @label Ch) : qreach s -> wait_b s -> wait_b (qstep s (QEnv l)).
+  Proof.
+    intros Hq IH. pose proof (q_reach _ Hq) as Hr. pose proof (K_reach _ Hr) as HK. pose proof (C_reach _ Hr) as HC.
+    pose proof (T_reach _ Hr) as HTI. pose proof (j_fresh _ (P2_Order.k_J _ HK)) as Hfresh.
+    assert (Hl : (match l with LRec _ _ _ => False | _ => True end) \/ exists c n o, l = LRec c n o).
+    { destruct l; try (left; exact I). right. eauto. }
+    destruct Hl as [Hl|(c & n & o & ->)]; [|exact IH].
+    assert (Hs : qstep s (QEnv l) = mkQW (step (qw s) l) (queue s ++ env_wakes (qw s) l)) by (destruct l; try reflexivity; destruct Hl).
+    rewrite Hs. clear Hs. destruct (env_frame (qw s) l Hl) as (Hp & Htx & Hnew). unfold wait_b. cbn [qw queue].
+    intros j T' HT' Hg Hen.
+    assert (Hne : j <> next_index (qw s)).
+    { intros ->. destruct (Hnew _ HT') as [Hn|Hold]; [|rewrite Hfresh in Hold by lia; discriminate].
+      destruct Hg as (_ & _ & [(c & Hc & _)|[(_ & Hv)|(_ & _ & Hi)]]).
+      - pose proof (early_others_none _ _ _ (reach_step candidate candidate_rb rollback_of overlay commit_merge payload record_applied touched
+                      restore resync_payload doc_ok dev_apply stamp v_empty d_empty ch_empty (qw s) l Hr) HT' (or_introl Hn)) as (_ & Hc0 & _).
+        congruence.
+      - pose proof (early_others_none _ _ _ (reach_step candidate candidate_rb rollback_of overlay commit_merge payload record_applied touched
+                      restore resync_payload doc_ok dev_apply stamp v_empty d_empty ch_empty (qw s) l Hr) HT' (or_introl Hn)) as (Hv0 & _).
+        congruence.
+      - congruence. }
+    assert (HT : txs (qw s) !! j = Some T') by (rewrite <- Htx by exact Hne; exact HT').
+    apply in_or_app. left. apply (IH j T' HT Hg).
+    apply (proj1 (gate_enabled _ _ _ HT Hg)).
+    destruct (proj1 (proj1 (gate_enabled (step (qw s) l) j T' HT' Hg)) Hen) as [Hall Hb]. split.
+    - rewrite <- (all_props_ext (qw s) (step (qw s) l)); [exact Hall|]. intros t. rewrite Hp. reflexivity.
+    - rewrite <- Hb. symmetry. apply blocked_ext; [intros t; rewrite Hp; reflexivity|].
+      intros t p Hpp. apply Htx. intros E.
+      destruct (N.eq_dec (p_prev p) 0) as [Hz|Hnz].
+      + pose proof (ti_next _ HTI). lia.
+      + destruct (ci_prev _ HC _ _ _ Hpp Hnz) as (Q & HQ & _).
+        destruct (k_exist _ HK _ _ _ HQ) as (T0 & HT0 & _). rewrite Hfresh in HT0 by lia. discriminate.
+  Qed.
+
+  (** * Wait (b) has a token in every reachable queued world: an enabled transaction at a gate is pending *)
+  Theorem wait_b_reach (s : qworld) : qreach s -> wait_b s.
+  Proof.
+    intros [ls ->]. induction ls as [|l ls IH] using rev_ind.
+    - intros i T H. cbn in H. rewrite lookup_empty in H. discriminate.
+    - unfold Proto2Queue.qrun in *. rewrite fold_left_app. cbn [fold_left].
+      assert (Hq : qreach (fold_left qstep ls qinit)) by (exists ls; reflexivity).
+      destruct l as [n o|l].
+      + destruct (nth_error (queue (fold_left qstep ls qinit)) n) as [c|] eqn:Hn.
+        * apply wait_b_deliver with (c := c); assumption.
+        * cbn [Proto2Queue.qstep]. rewrite Hn. exact IH.
+      + apply wait_b_env; assumption.
+  Qed.
+
+  (** * The fixed-point theorem with the token hypothesis only for the remaining cases *)
+  Notation tokens_covered := (@covered V Ch Req D candidate candidate_rb rollback_of overlay commit_merge payload record_applied
+                                       touched restore resync_payload doc_ok stamp v_empty d_empty ch_empty).
+  (* the token invariant is assumed for every enabled id EXCEPT the transactions that are INITIALIZING or at a gate
+     (waits (a) and (b), proved above) *)
+  Definition tokens_rest (s : qworld) : Prop :=
+    forall c o, fst (reconcile o (qw s) c) <> [] ->
+      tokens_covered s c \/ exists i T, c = CtlTx i /\ txs (qw s) !! i = Some T /\ (t_init T = Some Doing \/ gate_state T).
+  (* what is left of wait (a) at an idle world: an INITIALIZING transaction whose predecessor is INITIALIZED and parked at
+     the validate gate, closed (behind a SERIALIZABLE transaction that is not VALIDATED yet) *)
+  Definition parked_behind_gate (w : world) (c : ctrl) : Prop :=
+    exists i T P, c = CtlTx i /\ txs w !! i = Some T /\ t_init T = Some Doing /\
+                  txs w !! (i - 1) = Some P /\ at_init_gate P /\ ~ tx_enabled w (i - 1).
+
+  Theorem fixpoint_of_tokens_rest (s : qworld) :
+    qreach s -> tokens_rest s -> idle s = true ->
+    forall c o, fst (reconcile o (qw s) c) = [] \/ parked_behind_gate (qw s) c.
+  Proof.
+    intros Hq Htok Hidle c o.
+    assert (Hempty : queue s = []) by (unfold idle in Hidle; destruct (queue s); [reflexivity|discriminate]).
+    destruct (fst (reconcile o (qw s) c)) as [|e r] eqn:E; [left; reflexivity|right].
+    destruct (Htok c o) as [(c0 & Hin & _)|(i & T & -> & HT & Hst)]; [rewrite E; discriminate|rewrite Hempty in Hin; destruct Hin|].
+    assert (Hen : tx_enabled (qw s) i) by (unfold tx_enabled; cbn [Proto2.reconcile] in E; rewrite E; discriminate).
+    destruct Hst as [Hi|Hg].
+    - destruct (wait_a_reach s Hq i T HT Hi Hen) as [Hp|(P & HP & Hgate)]; [rewrite Hempty in Hp; destruct Hp|].
+      exists i, T, P. split; [reflexivity|]. split; [exact HT|]. split; [exact Hi|]. split; [exact HP|]. split; [exact Hgate|].
+      intros Hen'. assert (Hgs : gate_state P).
+      { destruct Hgate as (Hd & Hv & Hc & Ha & Hab). split; [exact Ha|]. split; [exact Hab|]. right. right. auto. }
+      pose proof (wait_b_reach s Hq (i - 1) P HP Hgs Hen') as Hp. rewrite Hempty in Hp. destruct Hp.
+    - pose proof (wait_b_reach s Hq i T HT Hg Hen) as Hp. rewrite Hempty in Hp. destruct Hp.
   Qed.
 End WaitA.
